@@ -253,6 +253,10 @@ func safeRecog(p []byte) (rc recog, pnc interface{}) {
 // checkProgram runs the parse oracle and, if roundTrip, the text round trip.
 func (r *report) checkProgram(prog []byte, roundTrip bool) {
 	r.evals++
+	// exact capacity: an over-read past the end of the program must fault, not read spare bytes
+	exact := make([]byte, len(prog))
+	copy(exact, prog)
+	prog = exact
 	insts, err, pnc := safeParse(prog)
 	if pnc != nil {
 		r.violation("panic-in-ParseProgram", fmt.Sprintf("program %s: %v", short(prog), pnc), progCase{Program: short(prog)})
